@@ -15,6 +15,7 @@ def check(run):
     std(run)
     arch_clauses = ("accepts_only_binary_known_arch", "refuses_with_ValueError", "refusal_changes_nothing", "refuses_only_bad_arch_or_identity_clash",
                     "image_filed_in_addressed_cell", "every_other_cell_unchanged")
+    verify.verify(run, c.E, c.contracts["meth:images.Images.add:any"], only=arch_clauses + ("nothing_else_written",), crosscheck=False)
     verify.verify(run, c.E, c.contracts["meth:images.Images.add:0"], only=arch_clauses, crosscheck=False)
     verify.verify(run, c.E, c.contracts["meth:images.Images.add:1"], only=arch_clauses, crosscheck=False)
     verify.verify(run, c.E, c.contracts["meth:rpms.Rpms.add"], only=("accepts_only_documented_cases", "refuses_with_ValueError_or_TypeError",
